@@ -48,7 +48,7 @@ let cube_carrier o =
     sh = (fun ((a, b), c) -> h a ^ "_" ^ h b ^ "_" ^ h c) }
 
 let verdict_name = function
-  | Accept -> "accept" | RejField -> "field" | RejOptions -> "options" | RejOod -> "ood" | RejFriCommit -> "fri"
+  | Accept -> "accept" | RejField -> "field" | RejOptions -> "options" | RejGkr -> "gkr" | RejOod -> "ood" | RejFriCommit -> "fri"
   | RejPow -> "pow" | RejTraceQuery -> "trace-query" | RejConsQuery -> "cons-query" | RejFri -> "fri"
 
 let rec list_eq eq a b = match a, b with [], [] -> true | x :: a', y :: b' -> eq x y && list_eq eq a' b' | _ -> false
@@ -60,7 +60,9 @@ let verify_in (c : 'f carrier) fld g =
   let bl s = Stdlib.List.map (fun x -> c.emb (z x)) (split ',' s) in     (* list of base elements, embedded *)
   let brows s = Stdlib.List.map bl (split '|' s) in
   (* fam=hold/deg/per/k;... *)
+  let lagfam = (try g "famk" with _ -> "fam") = "lag" in
   let fam =
+    if lagfam then [] else
     Stdlib.List.map
       (fun col ->
         match Stdlib.String.split_on_char '/' col with
@@ -88,25 +90,32 @@ let verify_in (c : 'f carrier) fld g =
   let aw = int_hex (g "aw") in
   let air = { air_n = nat_hex (g "n"); air_k = nat_hex (g "k"); air_g = c.emb (z (g "g")); air_periodic = brows (g "per");
               air_groups = groups_of (fun x -> c.emb (z x)) (g "groups"); air_nt_main = nat_hex (g "ntm");
-              air_aux_groups = groups_of c.pe (g "agroups") } in
+              air_aux_groups = groups_of c.pe (g "agroups");
+              air_lagrange = (let l = (try g "lag" with _ -> "-") in if l = "-" then None else Some (nat_hex l)) } in
   let n_of_z = function BinNums.Z0 -> BinNums.N0 | BinNums.Zpos p -> BinNums.Npos p | BinNums.Zneg _ -> failwith "negative position" in
   let positions = Stdlib.List.map (fun s -> n_of_z (z s)) (split ',' (g "pos")) in
   (* DeepComposer::new: x = E::from(g_lde^p * offset), computed in the base field *)
   let xs = Stdlib.List.map c.emb (query_xs (ops_of fld) (z (g "off")) (z (g "glde")) positions) in
   let coins = { c_aux_rands = el (g "ar"); cc_trans = el (g "tc"); cc_bnd = el (g "bc"); c_z = c.pe (g "z");
-                cc_deep_trace = el (g "dt"); cc_deep_cons = el (g "dc"); c_xs = xs } in
+                cc_deep_trace = el (g "dt"); cc_deep_cons = el (g "dc"); c_xs = xs;
+                c_lagrange = (if air.air_lagrange = None then None else
+                                Some { lg_rands = el (g "lr"); lg_cc_trans = el (g "ltc"); lg_cc_bnd = c.pe (g "lbc"); lg_cc_deep = c.pe (g "ldc") }) } in
   let aux = if aw = 0 then None else Some { ax_cur = el (g "acur"); ax_next = el (g "anext"); ax_rows = erows (g "qa") } in
   let proof = { p_modulus = z (g "pmod"); p_options = zl (g "popts"); p_ood_cur = el (g "cur"); p_ood_next = el (g "next");
-                p_ood_evals = el (g "evals"); p_q_trace = brows (g "qt"); p_q_cons = erows (g "qc"); p_aux = aux } in
+                p_ood_evals = el (g "evals"); p_q_trace = brows (g "qt"); p_q_cons = erows (g "qc"); p_aux = aux;
+                p_lagrange = (if air.air_lagrange = None then None else Some (el (g "lfr"))) } in
   let fri0 = el (g "fri0") in
   (* FRI verdict parameter: the first check of FriVerifier::verify (evaluations = layer-0 openings at the query positions);
      the remaining FRI checks are those of an honest proof *)
   let seen = ref [] in
-  let env = { e_modulus = z (g "emod"); e_acceptable = Stdlib.List.map zl (split '|' (g "acc")); e_fri_commit_ok = g "fric" = "1";
+  let env = { e_modulus = z (g "emod"); e_acceptable = Stdlib.List.map zl (split '|' (g "acc"));
+              e_gkr_ok = (try g "gkr" with _ -> "1") = "1"; e_fri_commit_ok = g "fric" = "1";
               e_pow_ok = g "pow" = "1"; e_trace_auth = g "tauth" = "1"; e_cons_auth = g "cauth" = "1";
               e_fri = (fun evals -> seen := evals; list_eq (fun a b -> o.FieldOps.feqb a b) evals fri0) } in
   let w = Stdlib.List.length fam in
-  let v = verify_model o (fam_trans o fam) (fam_aux_trans o (nat_of_int w) (nat_of_int aw)) env air coins proof in
+  let v =
+    if lagfam then verify_model o (lagfam_trans o) (lagfam_aux_trans o) env air coins proof
+    else verify_model o (fam_trans o fam) (fam_aux_trans o (nat_of_int w) (nat_of_int aw)) env air coins proof in
   match v with
   | Accept -> "accept " ^ (if !seen = [] then "-" else Stdlib.String.concat "," (Stdlib.List.map c.sh !seen))   (* the DEEP evaluations the model handed to the FRI verdict *)
   | v -> verdict_name v
